@@ -224,6 +224,13 @@ def handleC07 (toks : List String) : String :=
         let bb := bboxOf h
         "ok " ++ showRats [bb.xlo, bb.xhi, bb.ylo, bb.yhi, bb.zlo, bb.zhi] ++ " " ++ hiloS (hiLoOfBBox bb xy xz yz)
       | _ => err "format"
+  | "dumpdefaults" :: rest =>
+    -- dumpdefaults <n> (<name> <ndims> <dims...>)*  ->  the (name, shape) list the dump writer uses by default
+    run (do
+      let n ← pNat
+      pMany n do let name ← tok; let nd ← pNat; let dims ← pMany nd pNat; pure (name, dims)) rest fun stored =>
+      "ok " ++ " ".intercalate ((defaultDumpProps stored).map fun p =>
+        p.1 ++ ":" ++ ",".intercalate (p.2.map toString))
   | "route" :: rest =>
     -- route <data|dump|table|poscar> <none|path|stream> <second value asked for 0/1>
     run (do let kind ← tok; let tg ← tok; let w ← pBool; pure (kind, tg, w)) rest fun (kind, tg, w) =>
